@@ -1,4 +1,5 @@
 import Ecal.Lemmas.EvalFrame
+import Ecal.Lemmas.EvalPaths
 /-!
 Shape of the scope table of `Model/Eval.lean`: every parent has a smaller index than its child and every listed
 child points back to its parent (`ScopesWF`).  Preserved by the functions that create or link scopes (`newScope`,
@@ -198,5 +199,274 @@ theorem wf_initial (name : String) : ScopesWF { scopes := #[{ name := name, pare
   · intro p c hp hc
     have : p = 0 := by simp at hp; omega
     subst this; simp [St.scope] at hc
+
+/-! ### the frame link of `buildFrame` and `buildFrame` as a whole -/
+
+/-- linking a root scope `n` (no parent; therefore listed as a child nowhere) to a scope with a smaller index keeps the
+    table well-formed -/
+theorem wf_link (s : St) (h : ScopesWF s) (n ds : Nat) (hn : n < s.scopes.size) (hroot : (s.scope n).parent = none)
+    (hds : ds < n) :
+    ScopesWF { s with scopes := s.scopes.setIfInBounds n { s.scope n with parent := some ds } } := by
+  have hsc : ∀ i, ({ s with scopes := s.scopes.setIfInBounds n { s.scope n with parent := some ds } } : St).scope i =
+      if i = n then { s.scope n with parent := some ds } else s.scope i := by
+    intro i
+    by_cases hi : i = n
+    · subst hi; simp [St.scope, hn]
+    · simp only [hi, if_false, St.scope, Array.getD_eq_getD_getElem?]
+      rw [Array.getElem?_setIfInBounds_ne (Ne.symm hi)]
+  constructor
+  · intro i p hi hp
+    simp only [Array.size_setIfInBounds] at hi
+    rw [hsc i] at hp
+    by_cases h1 : i = n
+    · simp only [h1, if_true] at hp; injection hp with e; rw [h1, ← e]; exact hds
+    · simp only [h1, if_false] at hp; exact h.parentBelow i p hi hp
+  · intro p c hp hc
+    simp only [Array.size_setIfInBounds] at hp ⊢
+    have hc' : c ∈ (s.scope p).children := by
+      rw [hsc p] at hc
+      by_cases h1 : p = n
+      · simpa [h1] using hc
+      · simpa [h1] using hc
+    obtain ⟨a1, a2⟩ := h.childOk p c hp hc'
+    refine ⟨a1, ?_⟩
+    rw [hsc c]
+    have hcn : c ≠ n := by intro e; rw [e, hroot] at a2; cases a2
+    simp only [hcn, if_false]; exact a2
+
+/-- the invariant of a frame under construction as far as the SHAPE of the scope table goes: the table is well-formed,
+    the frame is in bounds and still a root -/
+def FrameWF (n : Nat) (s : St) : Prop := ScopesWF s ∧ n < s.scopes.size ∧ (s.scope n).parent = none
+
+theorem frameWF_withVar (n : Nat) (s : St) (v : String) (x : Val) (h : FrameWF n s) : FrameWF n (s.withVar n v x) :=
+  ⟨wf_withVar s h.1 n v x, by rw [(withVar_heap s n v x).2.2]; exact h.2.1, by rw [withVar_scope_same s n v x h.2.1]; exact h.2.2⟩
+
+/-- `buildFrame` keeps the scope table well-formed — for EVERY outcome (a default that raises an error leaves an
+    unlinked root behind, which is well-formed too).  Hypotheses: the declaration scope of the function exists, the
+    parameter names are plain identifiers, and evaluating the defaults of this parameter list preserves `FrameWF`
+    (`buildFrame_wf_noDefaults`: no such hypothesis when the list has no defaults). -/
+theorem buildFrame_wf (ev : Ecal.Parse.Node → M Val) (fr : FuncRec) (params : List (Option Ecal.Parse.Node)) (args : List Val)
+    (st st' : St) (r : Except Sig Nat) (h : ScopesWF st) (hds : fr.declScope < st.scopes.size)
+    (hpl : ∀ p nm, some p ∈ params → nodeParamName p = some nm → PlainName nm)
+    (hev : DefaultPreserves ev params (FrameWF st.scopes.size))
+    (hr : runM (buildFrame ev fr params args) st = (r, st')) :
+    ScopesWF st' ∧ st.scopes.size < st'.scopes.size := by
+  unfold buildFrame at hr
+  rw [runM_bind, newScope_run] at hr
+  simp only at hr
+  have h0 : FrameWF st.scopes.size
+      { st with scopes := st.scopes.push { name := s!"func: {fr.name}", parent := none, children := [], vars := [] } } :=
+    ⟨wf_newRoot st h _, by simp, by simp [St.scope]⟩
+  have hpar : ∀ s, FrameWF st.scopes.size s → (s.scope st.scopes.size).parent = none := fun s hs => hs.2.2
+  have hwv : ∀ s v x, FrameWF st.scopes.size s → True → FrameWF st.scopes.size (s.withVar st.scopes.size v x) :=
+    fun s v x hs _ => frameWF_withVar _ s v x hs
+  rw [runM_bind] at hr
+  obtain ⟨s1, hs1, hi1⟩ := bindContext_gen st.scopes.size (FrameWF st.scopes.size) (fun _ => True) hpar hwv
+    thisName fr.this _ plain_this trivial h0
+  rw [hs1] at hr
+  simp only at hr
+  rw [runM_bind] at hr
+  obtain ⟨s2, hs2, hi2⟩ := bindContext_gen st.scopes.size (FrameWF st.scopes.size) (fun _ => True) hpar hwv
+    superName fr.super s1 plain_super trivial hi1
+  rw [hs2] at hr
+  simp only at hr
+  rw [runM_bind] at hr
+  cases hb : runM (bindParamNodes ev st.scopes.size params 0 args) s2 with
+  | mk rb s3 =>
+    have hi3 := bindParamNodes_gen ev st.scopes.size (FrameWF st.scopes.size) (fun _ => True) hpar hwv args params 0 s2 s3 rb
+      hev (fun p nm hp hn => ⟨hpl p nm hp hn, trivial⟩) hi2 hb
+    rw [hb] at hr
+    cases rb with
+    | error e =>
+      simp only at hr
+      injection hr with _ h2
+      rw [← h2]; exact ⟨hi3.1, hi3.2.1⟩
+    | ok u =>
+      simp only at hr
+      rw [runM_bind, getScope_run] at hr
+      simp only at hr
+      rw [runM_bind, setScope_run] at hr
+      simp only [runM_pure] at hr
+      injection hr with _ h2
+      rw [← h2]
+      exact ⟨wf_link s3 hi3.1 st.scopes.size fr.declScope hi3.2.1 hi3.2.2 hds, by simpa using hi3.2.1⟩
+
+theorem buildFrame_wf_noDefaults (ev : Ecal.Parse.Node → M Val) (fr : FuncRec) (params : List (Option Ecal.Parse.Node))
+    (args : List Val) (st st' : St) (r : Except Sig Nat) (h : ScopesWF st) (hds : fr.declScope < st.scopes.size)
+    (hpl : ∀ p nm, some p ∈ params → nodeParamName p = some nm → PlainName nm) (hnp : NoPreset params)
+    (hr : runM (buildFrame ev fr params args) st = (r, st')) :
+    ScopesWF st' ∧ st.scopes.size < st'.scopes.size := by
+  rw [buildFrame_noPreset ev (fun _ => pure Val.null) fr params args hnp] at hr
+  exact buildFrame_wf _ fr params args st st' r h hds hpl (defaultPreserves_const params _) hr
+
+/-! ### writes: `setValue` / `setLocalValue` for every name and every outcome -/
+
+/-- a computation that never changes the scope table (whatever it returns, also when it fails) -/
+def ScopesSame {α : Type} (m : M α) : Prop := ∀ st r st', runM m st = (r, st') → st'.scopes = st.scopes
+
+theorem ScopesSame.pure {α : Type} (a : α) : ScopesSame (pure a : M α) := by
+  intro st r st' h; simp only [runM_pure] at h; injection h with _ h2; rw [← h2]
+theorem ScopesSame.throw {α : Type} (e : Sig) : ScopesSame (throw e : M α) := by
+  intro st r st' h; simp only [runM_throw] at h; injection h with _ h2; rw [← h2]
+theorem ScopesSame.bind {α β : Type} (m : M α) (k : α → M β) (hm : ScopesSame m) (hk : ∀ a, ScopesSame (k a)) :
+    ScopesSame (m >>= k) := by
+  intro st r st' h
+  rw [runM_bind] at h
+  cases hr : runM m st with
+  | mk r1 s1 =>
+    rw [hr] at h
+    have e1 := hm st r1 s1 hr
+    cases r1 with
+    | ok a => exact (hk a s1 r st' h).trans e1
+    | error e => simp only at h; injection h with _ h2; rw [← h2]; exact e1
+
+theorem getMap_same (r : Nat) : ScopesSame (getMap r) := by
+  intro st x st' h; rw [getMap_run] at h; injection h with _ h2; rw [← h2]
+theorem setMap_same (r : Nat) (kvs : List (Val × Val)) : ScopesSame (setMap r kvs) := by
+  intro st x st' h; rw [setMap_run] at h; injection h with _ h2; rw [← h2]
+theorem getBacking_same (r : Nat) : ScopesSame (getBacking r) := by
+  intro st x st' h; rw [getBacking_run] at h; injection h with _ h2; rw [← h2]
+theorem setBacking_same (r : Nat) (b : List Val) : ScopesSame (setBacking r b) := by
+  intro st x st' h; rw [setBacking_run] at h; injection h with _ h2; rw [← h2]
+theorem listIndex_same (fld : List Nat) (len : Nat) : ScopesSame (listIndex fld len) := by
+  intro st x st' h
+  rw [listIndex_run] at h
+  cases hl : listIdx fld len with
+  | some i => rw [hl] at h; injection h with _ h2; rw [← h2]
+  | none =>
+    rw [hl] at h
+    cases ha : atoi fld <;> (rw [ha] at h; injection h with _ h2; rw [← h2])
+
+theorem containerWalk_same : ∀ (f : Nat) (flds : List (List Nat)) (c : Val), ScopesSame (containerWalk f flds c) := by
+  intro f
+  induction f with
+  | zero => intro flds c; unfold containerWalk; exact ScopesSame.throw _
+  | succ f ih =>
+    intro flds c
+    cases flds with
+    | nil => unfold containerWalk; exact ScopesSame.pure _
+    | cons fld rest =>
+      unfold containerWalk
+      refine ScopesSame.bind _ _ ?_ (fun nxt => ?_)
+      · cases c with
+        | map r =>
+          refine ScopesSame.bind _ _ (getMap_same r) (fun kvs => ?_)
+          cases mapFieldLookup kvs fld with
+          | some v => exact ScopesSame.pure _
+          | none => exact ScopesSame.throw _
+        | list r l =>
+          refine ScopesSame.bind _ _ (listIndex_same fld l) (fun i => ?_)
+          exact ScopesSame.bind _ _ (getBacking_same r) (fun b => ScopesSame.pure _)
+        | _ => exact ScopesSame.throw _
+      · split
+        · exact ih rest nxt
+        · exact ScopesSame.pure _
+
+theorem scopeFor_state (v : String) (st : St) : ∀ (f sc : Nat) (r : Except Sig (Option Nat)) (s' : St),
+    runM (scopeFor f sc v) st = (r, s') → s' = st := by
+  intro f
+  induction f with
+  | zero => intro sc r s' hh; rw [scopeFor_zero] at hh; injection hh with _ h2; exact h2.symm
+  | succ f ih =>
+    intro sc r s' hh
+    rw [scopeFor_succ] at hh
+    split at hh
+    · injection hh with _ h2; exact h2.symm
+    · split at hh
+      · exact ih _ r s' hh
+      · injection hh with _ h2; exact h2.symm
+
+theorem lookupVar_same (sc : Nat) (v : String) : ScopesSame (lookupVar sc v) := by
+  intro st r st' h
+  unfold lookupVar at h
+  rw [runM_bind] at h
+  cases hs : runM (scopeFor 10000 sc v) st with
+  | mk r1 s1 =>
+    rw [hs] at h
+    have e1 : s1 = st := scopeFor_state v st 10000 sc r1 s1 hs
+    subst e1
+    cases r1 with
+    | error e => simp only at h; injection h with _ h2; rw [← h2]
+    | ok o =>
+      cases o with
+      | none => simp only [runM_pure] at h; injection h with _ h2; rw [← h2]
+      | some s =>
+        simp only at h
+        rw [runM_bind, getScope_run] at h
+        simp only [runM_pure] at h
+        injection h with _ h2; rw [← h2]
+
+/-- `setValue`, ANY name and ANY outcome: the scope table stays well-formed and keeps its size (a plain name writes
+    one variable, a dotted name writes the heap only) -/
+theorem setValue_wf (sc : Nat) (name : List Nat) (x : Val) (st st' : St) (r : Except Sig Unit) (h : ScopesWF st)
+    (hr : runM (setValue sc name x) st = (r, st')) : ScopesWF st' ∧ st'.scopes.size = st.scopes.size := by
+  unfold setValue at hr
+  cases hsd : splitDots name with
+  | nil =>
+    simp only [hsd, runM_pure] at hr
+    injection hr with _ h2; rw [← h2]; exact ⟨h, rfl⟩
+  | cons v rest =>
+    cases rest with
+    | nil =>
+      simp only [hsd] at hr
+      rw [runM_bind] at hr
+      cases hs : runM (scopeFor 10000 sc (bytesToString v)) st with
+      | mk r1 s1 =>
+        rw [hs] at hr
+        cases r1 with
+        | error e =>
+          simp only at hr; injection hr with _ h2
+          have e1 : s1 = st := scopeFor_state _ st 10000 sc _ s1 hs
+          rw [← h2, e1]; exact ⟨h, rfl⟩
+        | ok o =>
+          obtain ⟨e1, _⟩ := scopeFor_ok _ _ _ _ _ _ hs
+          subst e1
+          cases o with
+          | none =>
+            simp only at hr; rw [setVar_run] at hr
+            injection hr with _ h2; rw [← h2]
+            exact ⟨wf_withVar s1 h sc _ x, (withVar_heap s1 sc _ x).2.2⟩
+          | some s =>
+            simp only at hr; rw [setVar_run] at hr
+            injection hr with _ h2; rw [← h2]
+            exact ⟨wf_withVar s1 h s _ x, (withVar_heap s1 s _ x).2.2⟩
+    | cons f1 more =>
+      -- dotted name: only the heap is written
+      have hsame : ScopesSame (setValue sc name x) := by
+        unfold setValue
+        simp only [hsd]
+        refine ScopesSame.bind _ _ (lookupVar_same sc _) (fun o => ?_)
+        cases o with
+        | none => exact ScopesSame.throw _
+        | some c =>
+          simp only
+          refine ScopesSame.bind _ _ ?_ (fun cont => ?_)
+          · split
+            · exact containerWalk_same _ _ _
+            · exact ScopesSame.pure _
+          · cases cont with
+            | null => exact ScopesSame.pure _
+            | map r =>
+              exact ScopesSame.bind _ _ (getMap_same r) (fun kvs => setMap_same r _)
+            | list r l =>
+              refine ScopesSame.bind _ _ (listIndex_same _ l) (fun i => ?_)
+              exact ScopesSame.bind _ _ (getBacking_same r) (fun b => setBacking_same r _)
+            | _ => exact ScopesSame.throw _
+      have e := hsame st r st' (by unfold setValue; exact hr)
+      have hscope : ∀ i, st'.scope i = st.scope i := fun i => by simp [St.scope, e]
+      exact ⟨⟨fun i p hi hp => h.parentBelow i p (by rw [← e]; exact hi) (by rw [← hscope i]; exact hp),
+        fun p c hp hc => by
+          have := h.childOk p c (by rw [← e]; exact hp) (by rw [← hscope p]; exact hc)
+          exact ⟨by rw [e]; exact this.1, by rw [hscope c]; exact this.2⟩⟩, by rw [e]⟩
+
+/-- `setLocalValue` (the `let` node), any name and outcome -/
+theorem setLocalValue_wf (sc : Nat) (name : List Nat) (x : Val) (st st' : St) (r : Except Sig Unit) (h : ScopesWF st)
+    (hr : runM (setLocalValue sc name x) st = (r, st')) : ScopesWF st' ∧ st'.scopes.size = st.scopes.size := by
+  unfold setLocalValue at hr
+  rw [runM_bind, setVar_run] at hr
+  simp only at hr
+  have h1 := wf_withVar st h sc (bytesToString ((splitDots name).headD [])) Val.null
+  obtain ⟨h2, h3⟩ := setValue_wf sc name x _ st' r h1 hr
+  exact ⟨h2, by rw [h3]; exact (withVar_heap st sc _ _).2.2⟩
 
 end Ecal.Ev
